@@ -8,6 +8,8 @@
 (*        sample is written through - Dequeue directly followed by Spill)  *)
 (*   core/aggregator/discard.go (Mode = "discard": Report throws away,     *)
 (*        Run just waits for ctx.Done())                                   *)
+(*   core/aggregator/test.go (Mode = "memory": Report appends to a slice   *)
+(*        under a lock - the slice is the "sink"; Run waits for ctx.Done())*)
 (*   core/aggregator/reporter.go + encoder.go (Mode = "drop":              *)
 (*        Report = select { case Incomming <- s: default: dropped++ })     *)
 (* One action per select case / statement of Run:                          *)
@@ -24,11 +26,27 @@
 (* Samples are <<g, i>> (i-th report of goroutine g).  Formatting of a     *)
 (* line is Phout!PhoutLine and is orthogonal to the queueing.              *)
 (*                                                                         *)
+(* A sink may FAIL (SinkFaults = TRUE: at most one injected failure - a    *)
+(* write error, a partial write, a short count, a failing Close; the       *)
+(* bufio.Writer keeps its first error, so every later write fails too:     *)
+(* `werr`).  Which statements look at the error is the code's choice:      *)
+(*   spill inside Encode (bufio.Write)  -> `return err`        (reported)  *)
+(*   tick flush     phout `_ = a.writer.Flush()`   (ignored, but sticky)   *)
+(*                  encoder.go `err = encoder.Flush(); return` (reported)  *)
+(*   final flush, Close                 -> joined into Run's result        *)
+(* ErrIgnored \subseteq {"tick","final","close"} names the statements that  *)
+(* MAY drop the error on the floor.  As found: phout ignored all three,    *)
+(* jsonlines ignored bufio's Flush error inside jsonEncoder.Flush (tick    *)
+(* and final) - Aggregator_neg_swallow*.cfg; as fixed: phout {"tick"},     *)
+(* encoder aggregators {}.  NoSilentLoss: a run whose sink failed returns  *)
+(* an error; a run that returns without one is complete.                   *)
+(*                                                                         *)
 (* Bug (negative controls):  "nodrain"  - leave at ctx.Done without the    *)
 (*   drain loop; "noflush" - no final flush; "nocount" - drop without      *)
 (*   counting; "late" - drop the engine's guarantee that the aggregator is *)
 (*   cancelled only after the last report (Pool.tla: AggCancel =>          *)
-(*   AllInstanceResultsAwaited): shows the guarantee is necessary.         *)
+(*   AllInstanceResultsAwaited): shows the guarantee is necessary;         *)
+(*   "tickresets" - the flush tick consumes the drop counter.              *)
 (***************************************************************************)
 EXTENDS Phout
 
@@ -36,7 +54,9 @@ CONSTANTS K,        \* reporter goroutines 1..K
           M,        \* reports per goroutine
           Q,        \* queue capacity (>= 1)
           Mode,     \* "block" (phout, log) | "drop" (encoder aggregators) | "discard" (aggregator.NewDiscard)
-          Bug       \* "none" | "nodrain" | "noflush" | "nocount" | "late"
+          Bug,      \* "none" | "nodrain" | "noflush" | "nocount" | "late" | "tickresets"
+          SinkFaults, \* TRUE: the sink may fail once (and, being a full disk, keeps failing)
+          ErrIgnored  \* statements of Run that may ignore a sink error: subset of {"tick", "final", "close"}
 
 VARIABLES made,      \* made[g]: number of Report calls of g that returned
           queue,     \* the channel
@@ -47,9 +67,13 @@ VARIABLES made,      \* made[g]: number of Report calls of g that returned
           cancelled, \* ctx.Done() closed
           apc,       \* Run: "loop" | "drain" | "flush" | "close" | "ret" | "done"
           closed,    \* sink.Close() happened
-          result     \* N of the "N samples were dropped" error Run returned (0: nil), -1: not returned
+          result,    \* N of the "N samples were dropped" error Run returned (0: nil), -1: not returned
+          werr,      \* the buffered writer holds an error (sticky: nothing reaches the sink any more)
+          sinkfail,  \* history: the sink has failed (write, short count or close)
+          runerr     \* Run's result carries a sink error
 
-vars == <<made, queue, buf, disk, dropped, lost, cancelled, apc, closed, result>>
+vars == <<made, queue, buf, disk, dropped, lost, cancelled, apc, closed, result, werr, sinkfail, runerr>>
+errV == <<werr, sinkfail, runerr>>
 
 G == 1..K
 Reported == {<<g, i>> : g \in G, i \in 1..M} \cap {s \in (G \X (1..M)) : s[2] <= made[s[1]]}
@@ -59,6 +83,7 @@ Init == /\ made = [g \in G |-> 0]
         /\ queue = <<>> /\ buf = <<>> /\ disk = <<>>
         /\ dropped = 0 /\ lost = {}
         /\ cancelled = FALSE /\ apc = "loop" /\ closed = FALSE /\ result = -1
+        /\ werr = FALSE /\ sinkfail = FALSE /\ runerr = FALSE
 
 (* ---------------------------------------------------------------- reporters *)
 \* Report() of goroutine g.  Blocking mode: enabled only when there is room (the goroutine
@@ -71,56 +96,98 @@ Report(g) ==
        \/ /\ Mode = "discard"                               \* thrown away: no queue, no counter, never blocks
           /\ made' = [made EXCEPT ![g] = @ + 1]
           /\ lost' = lost \cup {s}
-          /\ UNCHANGED <<queue, dropped>>
-       \/ /\ Mode # "discard" /\ Len(queue) < Q
+          /\ UNCHANGED <<queue, dropped, disk, buf>>
+       \/ /\ Mode = "memory"                                \* kept at once, never blocks, never drops
+          /\ made' = [made EXCEPT ![g] = @ + 1]
+          /\ disk' = Append(disk, s)
+          /\ UNCHANGED <<queue, dropped, lost, buf>>
+       \/ /\ Mode \notin {"discard", "memory"} /\ Len(queue) < Q
           /\ queue' = Append(queue, s)
           /\ made' = [made EXCEPT ![g] = @ + 1]
-          /\ UNCHANGED <<dropped, lost>>
+          /\ UNCHANGED <<dropped, lost, disk, buf>>
        \/ /\ Mode = "drop" /\ Len(queue) >= Q
           /\ made' = [made EXCEPT ![g] = @ + 1]
           /\ dropped' = IF Bug = "nocount" THEN dropped ELSE dropped + 1
           /\ lost' = lost \cup {s}
-          /\ UNCHANGED queue
-    /\ UNCHANGED <<buf, disk, cancelled, apc, closed, result>>
+          /\ UNCHANGED <<queue, disk, buf>>
+    /\ UNCHANGED <<cancelled, apc, closed, result, errV>>
 
 \* the engine cancels the aggregator's context (checkAllInstancesAreFinished -> runCancel)
 Cancel == /\ ~cancelled
           /\ Bug = "late" \/ AllReported
           /\ cancelled' = TRUE
-          /\ UNCHANGED <<made, queue, buf, disk, dropped, lost, apc, closed, result>>
+          /\ UNCHANGED <<made, queue, buf, disk, dropped, lost, apc, closed, result, errV>>
 
 (* ---------------------------------------------------------------- Run *)
 Encode == /\ queue # <<>>
           /\ buf' = Append(buf, Head(queue))
           /\ queue' = Tail(queue)
 
+\* an attempt to hand `n` leading items of the buffer to the sink.  ok: all of them arrive.  Otherwise the sink
+\* fails now (allowed once) or the writer already holds its sticky error: a prefix (possibly empty; a torn
+\* last line is not modelled, lines are atomic here) arrives, the rest stays in the buffer for good.
+MayFailNow == SinkFaults /\ ~sinkfail
+WriteOK(n) == /\ ~werr
+              /\ disk' = disk \o SubSeq(buf, 1, n) /\ buf' = SubSeq(buf, n + 1, Len(buf))
+              /\ UNCHANGED <<werr, sinkfail>>
+WriteFails(n) == /\ werr \/ MayFailNow
+                 /\ IF werr THEN UNCHANGED <<disk, buf>>
+                            ELSE \E k \in 0..(n - 1) : /\ disk' = disk \o SubSeq(buf, 1, k)
+                                                      /\ buf' = SubSeq(buf, k + 1, Len(buf))
+                 /\ werr' = TRUE /\ sinkfail' = TRUE
+\* the statement either looks at the error (Run returns it: straight to the deferred flush / close) or not
+Looks(stmt)   == stmt \notin ErrIgnored
+MayIgnore(stmt) == stmt \in ErrIgnored
+
+\* with the sticky error in the writer the next bufio.Write fails: phout returns it at once; the jsonlines
+\* stream keeps encoding into its own slice until the next flush (both are allowed here)
 Dequeue  == /\ apc = "loop" /\ Encode
-            /\ UNCHANGED <<made, disk, dropped, lost, cancelled, apc, closed, result>>
-Tick     == /\ apc = "loop" /\ buf # <<>>
-            /\ disk' = disk \o buf /\ buf' = <<>>
-            /\ UNCHANGED <<made, queue, dropped, lost, cancelled, apc, closed, result>>
-\* bufio spills a prefix when the buffer is full
+            /\ \/ UNCHANGED <<apc, runerr>>
+               \/ werr /\ apc' = "flush" /\ runerr' = TRUE
+            /\ UNCHANGED <<made, disk, dropped, lost, cancelled, closed, result, werr, sinkfail>>
+Tick     == /\ apc = "loop" /\ (buf # <<>> \/ werr)
+            /\ \/ WriteOK(Len(buf)) /\ UNCHANGED <<apc, runerr>>
+               \/ /\ WriteFails(Len(buf))
+                  /\ \/ MayIgnore("tick") /\ UNCHANGED <<apc, runerr>>          \* `_ = a.writer.Flush()`
+                     \/ Looks("tick") /\ apc' = "flush" /\ runerr' = TRUE      \* `err = encoder.Flush(); if err != nil { return }`
+            \* Bug "tickresets": something on the flush tick reads the drop counter destructively (seed C06-9: DroppedErr
+            \* with Swap(0) + a periodic overflow warning)
+            /\ dropped' = IF Bug = "tickresets" THEN 0 ELSE dropped
+            /\ UNCHANGED <<made, queue, lost, cancelled, closed, result>>
+\* bufio spills a prefix when the buffer is full (inside Write: its error is always returned by handle)
 Spill    == /\ apc \in {"loop", "drain"} /\ buf # <<>>
-            /\ disk' = Append(disk, Head(buf)) /\ buf' = Tail(buf)
-            /\ UNCHANGED <<made, queue, dropped, lost, cancelled, apc, closed, result>>
+            /\ \/ WriteOK(1) /\ UNCHANGED <<apc, runerr>>
+               \/ WriteFails(1) /\ apc' = "flush" /\ runerr' = TRUE
+            /\ UNCHANGED <<made, queue, dropped, lost, cancelled, closed, result>>
 SeeDone  == /\ apc = "loop" /\ cancelled
             /\ apc' = IF Bug = "nodrain" THEN "flush" ELSE "drain"
-            /\ UNCHANGED <<made, queue, buf, disk, dropped, lost, cancelled, closed, result>>
+            /\ UNCHANGED <<made, queue, buf, disk, dropped, lost, cancelled, closed, result, errV>>
 DrainOne == /\ apc = "drain" /\ Encode
-            /\ UNCHANGED <<made, disk, dropped, lost, cancelled, apc, closed, result>>
+            /\ \/ UNCHANGED <<apc, runerr>>
+               \/ werr /\ apc' = "flush" /\ runerr' = TRUE
+            /\ UNCHANGED <<made, disk, dropped, lost, cancelled, closed, result, werr, sinkfail>>
 DrainEnd == /\ apc = "drain" /\ queue = <<>>
             /\ apc' = "flush"
-            /\ UNCHANGED <<made, queue, buf, disk, dropped, lost, cancelled, closed, result>>
+            /\ UNCHANGED <<made, queue, buf, disk, dropped, lost, cancelled, closed, result, errV>>
+\* deferred: runs on every way out of Run
 FinalFlush == /\ apc = "flush"
-              /\ IF Bug = "noflush" THEN UNCHANGED <<disk, buf>> ELSE disk' = disk \o buf /\ buf' = <<>>
+              /\ \/ Bug = "noflush" /\ UNCHANGED <<disk, buf, errV>>
+                 \/ Bug # "noflush" /\ WriteOK(Len(buf)) /\ UNCHANGED runerr
+                 \/ /\ Bug # "noflush" /\ WriteFails(Len(buf))
+                    /\ \/ MayIgnore("final") /\ UNCHANGED runerr
+                       \/ Looks("final") /\ runerr' = TRUE
               /\ apc' = "close"
               /\ UNCHANGED <<made, queue, dropped, lost, cancelled, closed, result>>
 Close    == /\ apc = "close"
             /\ closed' = TRUE /\ apc' = "ret"
+            /\ \/ UNCHANGED errV
+               \/ /\ MayFailNow /\ sinkfail' = TRUE /\ UNCHANGED werr       \* Close itself fails
+                  /\ \/ MayIgnore("close") /\ UNCHANGED runerr
+                     \/ Looks("close") /\ runerr' = TRUE
             /\ UNCHANGED <<made, queue, buf, disk, dropped, lost, cancelled, result>>
 Return   == /\ apc = "ret"
             /\ result' = dropped /\ apc' = "done"
-            /\ UNCHANGED <<made, queue, buf, disk, dropped, lost, cancelled, closed>>
+            /\ UNCHANGED <<made, queue, buf, disk, dropped, lost, cancelled, closed, errV>>
 
 AggStep == Dequeue \/ Tick \/ Spill \/ SeeDone \/ DrainOne \/ DrainEnd \/ FinalFlush \/ Close \/ Return
 
@@ -135,6 +202,7 @@ NoDup(s) == \A i, j \in DOMAIN s : i # j => s[i] # s[j]
 TypeOK == /\ made \in [G -> 0..M] /\ Len(queue) <= Q /\ dropped \in 0..(K * M)
           /\ apc \in {"loop", "drain", "flush", "close", "ret", "done"}
           /\ result \in -1..(K * M)
+          /\ werr \in BOOLEAN /\ sinkfail \in BOOLEAN /\ runerr \in BOOLEAN /\ (werr => sinkfail)
 
 \* every reported sample is in exactly one place (exactly once, nothing invented)
 Conservation ==
@@ -142,23 +210,41 @@ Conservation ==
     /\ Rng(queue \o buf \o disk) \cap lost = {}
     /\ (Bug # "late" \/ apc # "done") => Rng(queue \o buf \o disk) \cup lost = Reported
 
-\* THE property, at Run return
+\* THE property, at Run return (of a run whose sink worked)
 CompleteAtReturn ==
-    (apc = "done" /\ Mode # "discard") =>
+    (apc = "done" /\ Mode # "discard" /\ ~sinkfail) =>
         /\ AllReported
         /\ PermutationUpToDrops(disk, SeqOfSet(Reported), result)     \* permutation of the non-dropped reports
         /\ Rng(disk) = Reported \ lost
         /\ CompleteCounts(Len(disk), result, Cardinality(Reported))      \* |written| + dropped = |reported|
         /\ buf = <<>> /\ queue = <<>>                                    \* flushed
         /\ closed                                                        \* and closed
+\* a failing sink: the run FAILS (its result carries the error) - it never loses lines silently; and a
+\* result without a sink error means the sink has everything; an error is never made up
+NoSilentLoss ==
+    /\ (apc = "done" /\ sinkfail) => runerr
+    /\ (apc = "done" /\ ~runerr /\ Mode # "discard") => (buf = <<>> /\ queue = <<>> /\ Rng(disk) = Reported \ lost)
+    /\ runerr => sinkfail
+    /\ apc = "done" => closed          \* also a failed run closes its sink
+\* whatever fails, nothing is invented or written twice (Conservation); the drop count of a run that returned
+\* without a sink error is exact, a failed run (it returned early: later reports find a dead queue) never
+\* counts more drops than happened
+FailedRunStillCounts ==
+    (apc = "done" /\ Mode # "discard") =>
+        IF runerr THEN result <= Cardinality(lost) ELSE result = Cardinality(lost)
 \* the discard aggregator writes nothing, counts nothing, and its Report is always possible
 DiscardIsInert == Mode = "discard" => /\ queue = <<>> /\ buf = <<>> /\ disk = <<>> /\ dropped = 0
                                       /\ \A g \in G : (made[g] < M /\ ~cancelled) => ENABLED Report(g)
                                       /\ (apc = "done" => result = 0 /\ AllReported)
 \* blocking mode never drops
-BlockNeverDrops == Mode = "block" => dropped = 0 /\ lost = {}
+BlockNeverDrops == Mode \in {"block", "memory"} => dropped = 0 /\ lost = {}
+\* the in-memory aggregator holds every report the moment its Report returns (GetSamples at any time)
+MemoryKeepsAll == Mode = "memory" => /\ queue = <<>> /\ buf = <<>> /\ Rng(disk) = Reported /\ NoDup(disk)
+                                     /\ \A g \in G : (made[g] < M /\ ~cancelled) => ENABLED Report(g)
+\* (negative control: a finished in-memory run that holds all K*M reports is reachable)
+MemoryRunReachable == ~(Mode = "memory" /\ apc = "done" /\ Len(disk) = K * M)
 \* nothing reaches the sink after Close
-ClosedIsFinal == [][closed => disk' = disk]_vars
+ClosedIsFinal == [][(closed /\ Mode # "memory") => disk' = disk]_vars
 \* every run ends once it is cancelled
 Terminates == cancelled ~> apc = "done"
 =============================================================================
